@@ -1855,3 +1855,179 @@ def c03_layout_checks(repo: Repo, tier: str, res: CheckResult, seed: int) -> Non
                         "verdict": "agrees"})
     res.count("LAYOUT.configurations", n, 120)
     res.count("LAYOUT.programs-audited", n_prog, 80)
+
+
+# ================================================================================================ C17: model kinds (tier G)
+def _kind_loader_fp(rec: dict) -> Any:
+    from .genaudit import audit_loader
+    L = rec["loader"]
+    if L["error"] is not None or L["source"] is None:
+        return {"error": L["error"] or "no program"}
+    fn, alias = _parse_hook_source(L["source"])
+    S = audit_loader(fn)
+    ns = L["namespace"]
+
+    def binding(name: str) -> str:
+        g = alias.get(name)
+        d = ns.get(g, {}) if g else {}
+        q = d.get("qualname") or d.get("callable") or d.get("repr", "?")
+        return re.sub(r" at 0x[0-9a-f]+", "", str(q))
+    reads = sorted((r.field_id, repr(r.path), r.via, binding("loader_" + r.field_id) if r.via == "loader" else "-") for r in S.reads)
+    defaults = {}
+    for k, v in S.defaults.items():
+        outs = []
+        for d in sorted(set(v)):
+            if re.fullmatch(r"dfl_\w+\(\)", d):
+                outs.append("call:" + binding(d[:-2]))
+            elif re.fullmatch(r"dfl_\w+", d):
+                outs.append("const:" + ns.get(alias.get(d, ""), {}).get("type", "?") + ":" + ns.get(alias.get(d, ""), {}).get("repr", "?"))
+            else:
+                outs.append("lit:" + d)
+        defaults[k] = outs
+    groups = {"AggregateLoadError", "CompatExceptionGroup", "UnionLoadError"}
+    return {
+        "reads": reads,
+        "defaults": defaults,
+        "rejects": sorted({(c, repr(p)) for c, p, _t, _l, _x in S.rejects if c not in groups}),
+        "forbid": sorted((a, b) for a, b, _ in S.forbid_checks),
+        "len": sorted((a, b, c) for a, b, c, _ in S.len_checks),
+        "trails": sorted({(r.field_id, repr(r.trail)) for r in S.reads}),
+    }
+
+
+def _kind_dumper_fp(rec: dict) -> Any:
+    from .genaudit import audit_dumper
+    D = rec["dumper"]
+    if D["error"] is not None or D["source"] is None:
+        return {"error": D["error"] or "no program"}
+    fn, alias = _parse_hook_source(D["source"])
+    S = audit_dumper(fn)
+    ns = D["namespace"]
+
+    def binding(name: str) -> str:
+        g = alias.get(name)
+        d = ns.get(g, {}) if g else {}
+        q = d.get("qualname") or d.get("callable") or d.get("repr", "?")
+        return re.sub(r" at 0x[0-9a-f]+", "", str(q))
+    tree = sorted((repr(p), e[0], str(e[1]), None if e[2] is None else re.sub(r"\b(f|r)_\w+\b", "V", e[2])) for p, e in S.tree.items())
+    dumped = {}
+    for k, v in S.field_sources.items():
+        fid = v[0]
+        dumped[fid] = binding("dumper_" + fid) if v[3] else "as-is"
+    return {"tree": tree, "dumpers": dict(sorted(dumped.items())), "return": S.return_expr}
+
+
+def c17_checks(repo: Repo, tier: str, res: CheckResult, seed: int) -> None:
+    recs = run_child(repo, tier, seed, "kinds")
+    groups: Dict[Tuple, Dict[str, dict]] = {}
+    for r in recs:
+        if r.get("kind") != "kinds":
+            continue
+        if r.get("harness_error"):
+            raise AnalysisError(f"kinds harness failed ({r.get('model_kind')}, {r.get('spec')}): {r['harness_error']}")
+        if r.get("inexpressible"):
+            continue
+        groups.setdefault((r["spec"], r["nm"], r["debug_trail"]), {})[r["model_kind"]] = r
+    n = n_cmp = 0
+    SHP = "adaptix/_internal/provider/shape_provider.py"
+    for key, by_kind in sorted(groups.items()):
+        n += 1
+        res.evaluated("G:kinds:" + "/".join(key), True)
+        base_kind = "dataclass" if "dataclass" in by_kind else sorted(by_kind)[0]
+        for what, fpf in (("loader", _kind_loader_fp), ("dumper", _kind_dumper_fp)):
+            try:
+                base = fpf(by_kind[base_kind])
+            except SyntaxError as ex:
+                raise AnalysisError(f"kinds {key} {base_kind}: emitted {what} does not parse: {ex}")
+            for kind, rec in by_kind.items():
+                if kind == base_kind:
+                    continue
+                n_cmp += 1
+                fp = fpf(rec)
+                if fp == base:
+                    continue
+                # TypedDict shapes list their fields in alphabetical order (typed_dict._get_td_hints sorts the hints), every other
+                # kind in declaration order: with list layouts the positions differ.  Recognise exactly that permutation.
+                if kind == "typeddict" and "error" not in fp and "error" not in base:
+                    names_ = [f[0] for f in rec["fields"]]
+                    perm = {i: sorted(names_).index(nm_) for i, nm_ in enumerate(names_)}
+
+                    def permute(o):
+                        txt = json.dumps(o, default=str)
+                        return json.loads(re.sub(r"\((\d+),\)", lambda mt: f"({perm.get(int(mt.group(1)), int(mt.group(1)))},)", txt)
+                                          .replace("'append', ", "'append', @"))
+                    def permute_trail(o):
+                        txt = json.dumps(o, default=str)
+                        txt = re.sub(r"\((\d+),\)", lambda mt: f"({perm.get(int(mt.group(1)), int(mt.group(1)))},)", txt)
+                        txt = re.sub(r"\('append', (\d+)\)", lambda mt: f"('append', {perm.get(int(mt.group(1)), int(mt.group(1)))})", txt)
+                        return json.loads(txt)
+                    pb = permute_trail(base)
+                    canon = lambda o: json.dumps(o, sort_keys=True, default=str)      # noqa: E731
+                    same = all(sorted(map(canon, pb.get(k))) == sorted(map(canon, json.loads(json.dumps(fp.get(k), default=str))))
+                               if isinstance(pb.get(k), list) else canon(pb.get(k)) == canon(json.loads(json.dumps(fp.get(k), default=str)))
+                               for k in set(pb) | set(fp))
+                    if same:
+                        res.add(Finding("C17", "KIND.typeddict-field-order", "adaptix/_internal/model_tools/introspection/typed_dict.py",
+                                        "_get_td_hints", f"list positions of TypedDict fields are alphabetical ({what})",
+                                        f"the TypedDict declaration of the logical model {key[0]} gets list positions in ALPHABETICAL "
+                                        f"field order under `{key[1]}` while every other kind uses declaration order "
+                                        f"(_get_td_hints sorts the hints): the same input list loads into different fields / the same "
+                                        f"object dumps to a differently ordered list ({what})", 0))
+                        continue
+                diffs = []
+                for k in sorted(set(fp) | set(base)):
+                    if fp.get(k) != base.get(k):
+                        diffs.append(f"{k}: {kind}={json.dumps(fp.get(k), default=str)[:220]} vs {base_kind}={json.dumps(base.get(k), default=str)[:220]}")
+                res.add(Finding("C17", f"KIND.{what}-differs", SHP, "BUILTIN_SHAPE_PROVIDER",
+                                f"{kind} vs {base_kind}: {what} {sorted(k for k in set(fp) | set(base) if fp.get(k) != base.get(k))} under {key[1]}",
+                                f"the same logical model ({key[0]}: {rec['fields']}) under name_mapping `{key[1]}` ({key[2]}) compiles to "
+                                f"different {what}s for {kind} and {base_kind}: " + "; ".join(diffs)[:700], 0,
+                                extra={"spec": key[0], "nm": key[1], "kinds": [kind, base_kind]}))
+        if len(res.samples) < 6 and n % 11 == 1:
+            res.sample({"spec": key[0], "name_mapping": key[1], "kinds": sorted(by_kind), "verdict": "fingerprints compared"})
+    res.count("KIND.groups", n, 30)
+    res.count("KIND.comparisons", n_cmp, 150)
+    # converters between kinds copy every field
+    m = 0
+    for r in recs:
+        if r.get("kind") != "kinds_conv":
+            continue
+        if r.get("harness_error"):
+            raise AnalysisError(f"kinds converter harness failed: {r['harness_error']}")
+        m += 1
+        ident = f"{r['spec']}:{r['src_kind']}->{r['dst_kind']}"
+        res.evaluated("G:kinds-conv:" + ident, True)
+        MCP = "adaptix/_internal/conversion/model_coercer_provider.py"
+        if r["error"] is not None or r["source"] is None:
+            res.add(Finding("C17", "KIND.converter-refused", MCP, "ModelCoercerProvider", ident,
+                            f"no converter from the {r['src_kind']} to the {r['dst_kind']} declaration of the same logical model "
+                            f"({r['error']})", 0))
+            continue
+        fn, alias = _parse_hook_source(r["source"])
+        call = fn.body[0].value if fn is not None and fn.body and isinstance(fn.body[0], ast.Return) else None
+        if not isinstance(call, ast.Call):
+            res.add(Finding("C17", "KIND.converter-shape", MCP, "ModelCoercerProvider", ident, "coercer is not a constructor call", 0))
+            continue
+        names = [f[0] for f in r["fields"]]
+        got = {}
+        for i, a in enumerate(call.args):
+            got[names[i] if i < len(names) else f"#{i}"] = a
+        for k in call.keywords:
+            got[k.arg or "**"] = k.value
+        for nm_ in names:
+            e = got.get(nm_)
+            inner = e
+            if isinstance(e, ast.Call) and len(e.args) == 2 and norm(e.args[1]) == "ctx":
+                inner = e.args[0]
+            ok = (isinstance(inner, ast.Attribute) and norm(inner.value) == "data" and inner.attr == nm_) or (
+                isinstance(inner, ast.Subscript) and norm(inner.value) == "data" and isinstance(inner.slice, ast.Constant)
+                and (inner.slice.value == nm_ or (r["src_kind"] == "namedtuple" and inner.slice.value == names.index(nm_))))
+            if not ok:
+                res.add(Finding("C17", "KIND.converter-field", MCP, "ModelCoercerProvider", f"{ident}: {nm_} <- {norm(e)[:40] if e is not None else None}",
+                                f"converter {ident}: destination field `{nm_}` is not copied from the same-named source field "
+                                f"(`{norm(call)[:160]}`)", 0))
+        extra = set(got) - set(names)
+        if extra:
+            res.add(Finding("C17", "KIND.converter-field", MCP, "ModelCoercerProvider", f"{ident}: extra {sorted(extra)}",
+                            f"converter {ident} passes unexpected arguments {sorted(extra)}", 0))
+    res.count("KIND.converters", m, 50)
